@@ -5,6 +5,8 @@ import (
 	"fmt"
 	"sort"
 	"strings"
+	"sync/atomic"
+	"time"
 
 	"github.com/go-faster/errors"
 
@@ -84,6 +86,9 @@ var errNoUser = errors.New("user state not found")
 
 func (r recStorage) rec(op string, args ...int) error {
 	w := r.w
+	if w.closed.Load() {
+		return errNoUser
+	}
 	if op != "SetState" && !w.Store.Found {
 		return errNoUser
 	}
@@ -159,6 +164,20 @@ type WorldCfg struct {
 	// Lazy: the channel workers' queue steps and the main loop's internal-queue steps are explicit
 	// events ("chan", "int") instead of being run to quiescence after every event.
 	Lazy bool `json:"lazy,omitempty"`
+	// Untracked lists channel numbers (n of "cmsg@n", 1 for plain "cmsg") that the client neither
+	// tracks nor has in its storage when it starts; their access hash is known. The first pushed
+	// update of such a channel makes internalState.handleChannel create the channel state.
+	Untracked []int `json:"untracked,omitempty"`
+}
+
+// IsUntracked reports whether the channel is not known to the client at the start.
+func (c WorldCfg) IsUntracked(ch int64) bool {
+	for _, n := range c.Untracked {
+		if ChanBase+int64(n) == ch {
+			return true
+		}
+	}
+	return false
 }
 
 // Event of a scenario.
@@ -199,7 +218,12 @@ type World struct {
 	Eng    *updates.VerifState
 	Store  Store
 	Trace  []Call
-	Chans  []int64 // tracked channels, id order
+	Chans  []int64 // tracked channels, id order (grows when the engine starts to follow a channel)
+	All    []int64 // all channels of the log, id order: channel events index this list
+	// Contact: for initially untracked channels, the position before the first pushed entry
+	Contact map[string]int
+	parked  chan int64
+	closed  atomic.Bool
 	Seqs   []string
 	Count  []int // deliveries per entry in this run
 	Prior  []int // deliveries per entry in earlier runs (restart)
@@ -241,13 +265,38 @@ func LogChannels(log []Entry) []int64 {
 }
 
 // InitialStore is the persisted state of a client that is in sync with an empty log and tracks
-// the channels of the log.
-func InitialStore(log []Entry) Store {
+// the channels of the log except cfg.Untracked.
+func InitialStore(cfg WorldCfg, log []Entry) Store {
 	s := Store{Found: true, State: updates.State{Date: baseDate}, Chans: map[int64]int{}}
 	for _, c := range LogChannels(log) {
-		s.Chans[c] = 0
+		if !cfg.IsUntracked(c) {
+			s.Chans[c] = 0
+		}
 	}
 	return s
+}
+
+// FirstContact returns, per initially untracked channel sequence, the position before the first
+// log entry of that channel that is pushed in hist: the point from which the client starts to
+// follow the channel (it has no earlier state for it; "if there is no local pts for the channel,
+// start from pts - pts_count of the first update seen"). Entries at or before it precede the
+// client's subscription and are not owed to the handler. Worlds with untracked channels use
+// plain envelopes, so a pushed entry reaches handleChannel during its own push event.
+func FirstContact(cfg WorldCfg, log []Entry, hist []Event) map[string]int {
+	fc := map[string]int{}
+	for _, ev := range hist {
+		if ev.Op != "push" || ev.I >= len(log) {
+			continue
+		}
+		e := log[ev.I]
+		if e.Chan == 0 || !cfg.IsUntracked(e.Chan) {
+			continue
+		}
+		if _, ok := fc[e.Seq]; !ok {
+			fc[e.Seq] = e.Start()
+		}
+	}
+	return fc
 }
 
 // NewWorld builds the engine from a persisted state (the set-up part of Manager.Run). visible is
@@ -258,7 +307,8 @@ func NewWorld(cfg WorldCfg, store Store, visible int) (*World, error) {
 		return nil, err
 	}
 	w := &World{Cfg: cfg, Store: store.Clone(), Count: make([]int, len(log)), Prior: make([]int, len(log)),
-		TooLong: map[string]bool{}, delivered: map[string]map[int]bool{}, base: map[string]int{}}
+		TooLong: map[string]bool{}, delivered: map[string]map[int]bool{}, base: map[string]int{},
+		All: LogChannels(log), Contact: map[string]int{}, parked: make(chan int64, 16)}
 	w.Srv = NewServer(cfg.Server, log)
 	w.Srv.Visible = visible
 	w.Srv.OnChanDiff = func(ch int64) {
@@ -269,6 +319,7 @@ func NewWorld(cfg WorldCfg, store Store, visible int) (*World, error) {
 			panic("harness: getChannelDifference while the worker's queue is not empty or the internal queue is full")
 		}
 	}
+	w.Srv.OnSpawned = func(ch int64) { w.parked <- ch }
 	w.Srv.OnAnswer = func(a Answer) {
 		c := Call{Op: "api:" + a.Type, Args: []int{a.Pts}}
 		if a.Seq == SeqPts {
@@ -316,6 +367,9 @@ func (f handlerFunc) Handle(ctx context.Context, u tg.UpdatesClass) error { retu
 
 // handle is the UpdateHandler: records the delivery and evaluates the per-delivery part of C01.
 func (w *World) handle(ctx context.Context, u tg.UpdatesClass) error {
+	if w.closed.Load() {
+		return nil
+	}
 	us, ok := u.(*tg.Updates)
 	if !ok {
 		w.Errs = append(w.Errs, fmt.Sprintf("handler got %T", u))
@@ -359,7 +413,7 @@ func (w *World) handle(ctx context.Context, u tg.UpdatesClass) error {
 func (w *World) Positions() map[string]int {
 	d := w.Eng.Dump(w.Srv.Identify)
 	m := map[string]int{SeqPts: d.Pts.State, SeqQts: d.Qts.State}
-	for i, c := range w.Chans {
+	for i, c := range d.ChanIDs {
 		m[ChanSeq(c)] = d.Chans[i].State
 	}
 	return m
@@ -374,15 +428,18 @@ func (w *World) step(name string, f func()) {
 	w.evDeliv = w.evDeliv[:0]
 	w.evAnswers = len(w.Srv.Answered)
 	f()
+	w.adopt()
 	if !w.Cfg.Lazy {
 		w.Drain()
-	}
-	if w.Eng.TrackedChannels() != len(w.Chans) {
-		panic("harness: the engine created a channel state on its own")
 	}
 	after := w.Positions()
 	for _, s := range w.Seqs {
 		now := after[s]
+		if _, existed := before[s]; !existed {
+			// the engine started to follow this channel during the event: its position starts at
+			// the first contact (checked below by the skip rule) and may have advanced by deliveries
+			before[s] = now
+		}
 		if now != before[s] {
 			ok := false
 			for _, i := range w.evDeliv {
@@ -416,6 +473,62 @@ func seqClass(s string) string {
 		return "channel-pts"
 	}
 	return s
+}
+
+// adopt takes over the channel states that internalState.handleChannel created during the
+// current main-loop step: it waits until each of their real Run goroutines is parked in its
+// channel-subscribe call (strict hand-off through the fake server, no sleeps), registers them
+// and performs what their Run does first (the subscribe difference) on the harness thread.
+func (w *World) adopt() {
+	for w.Eng.TrackedChannels() > len(w.Chans) {
+		want := w.Eng.TrackedChannels() - len(w.Chans)
+		for i := 0; i < want; i++ {
+			select {
+			case <-w.parked:
+			case <-time.After(30 * time.Second):
+				panic("harness: a channel worker started by the engine did not reach its subscribe call")
+			}
+		}
+		for _, c := range w.Eng.Adopt() {
+			if !w.Cfg.IsUntracked(c) {
+				panic("harness: the engine created a state for a channel that was tracked")
+			}
+			s := ChanSeq(c)
+			w.Chans = append(w.Chans, c)
+			sort.Slice(w.Chans, func(i, j int) bool { return w.Chans[i] < w.Chans[j] })
+			w.Seqs = append(w.Seqs, s)
+			w.delivered[s] = map[int]bool{}
+			w.base[s] = w.Contact[s]
+			restore := w.Eng.ChanHold(c)
+			if err := w.Eng.ChanSubscribe(c); err != nil {
+				w.Errs = append(w.Errs, "subscribe: "+err.Error())
+			}
+			restore()
+		}
+	}
+}
+
+// Close releases the engine (cancels its context; parked workers return). The world must not
+// be driven afterwards; its records stay readable.
+func (w *World) Close() {
+	if w.closed.Swap(true) {
+		return
+	}
+	w.Eng.Close()
+}
+
+// chanAt maps the channel index of an event (index into All) to a tracked channel.
+func (w *World) chanAt(i int) (int64, bool) {
+	if i < 0 || i >= len(w.All) {
+		return 0, false
+	}
+	c := w.All[i]
+	for _, t := range w.Chans {
+		if t == c {
+			return c, true
+		}
+	}
+	return c, false
 }
 
 // Drain runs the channel workers and the main loop's internal queue until all queues are empty.
@@ -478,18 +591,17 @@ func (w *World) Enabled(e Event) bool {
 		return w.Srv.Visible < len(w.Srv.Log)
 	case "diff", "tooLong", "ptsChanged":
 		return room
-	case "cdiff":
+	case "cdiff", "chanTooLong", "chanTooLongNoPts":
 		// with queued updates channelState.sendOut may drop them nondeterministically (select)
-		return e.I < len(w.Chans) && w.Eng.ChanLen(w.Chans[e.I]) == 0 && room
-	case "chanTooLong", "chanTooLongNoPts":
-		return e.I < len(w.Chans) && w.Eng.ChanLen(w.Chans[e.I]) == 0 && room
+		c, ok := w.chanAt(e.I)
+		return ok && w.Eng.ChanLen(c) == 0 && room
 	case "int":
 		return w.Cfg.Lazy && w.Eng.MainInternalLen() > 0
 	case "chan":
-		if !w.Cfg.Lazy || e.I >= len(w.Chans) {
+		c, ok := w.chanAt(e.I)
+		if !w.Cfg.Lazy || !ok {
 			return false
 		}
-		c := w.Chans[e.I]
 		n := w.Eng.ChanLen(c)
 		if n == 0 {
 			return false
@@ -511,19 +623,26 @@ func (w *World) Apply(e Event) {
 		}
 		switch e.Op {
 		case "push":
+			if en := w.Srv.Log[e.I]; en.Chan != 0 && w.Cfg.IsUntracked(en.Chan) {
+				if _, ok := w.Contact[en.Seq]; !ok {
+					w.Contact[en.Seq] = en.Start()
+				}
+			}
 			push(w.Srv.Push(e.I, w.Cfg.Envelope))
 		case "grow":
 			w.Srv.Visible = len(w.Srv.Log)
 		case "diff":
 			w.Eng.MainDiff("pts-gap-timeout")
 		case "cdiff":
-			w.Eng.ChanDiff(w.Chans[e.I])
+			c, _ := w.chanAt(e.I)
+			w.Eng.ChanDiff(c)
 		case "int":
 			if _, err := w.Eng.MainStepInternal(); err != nil {
 				w.Errs = append(w.Errs, "main loop: "+err.Error())
 			}
 		case "chan":
-			if _, err := w.Eng.ChanStep(w.Chans[e.I]); err != nil {
+			c, _ := w.chanAt(e.I)
+			if _, err := w.Eng.ChanStep(c); err != nil {
 				w.Errs = append(w.Errs, "channel worker: "+err.Error())
 			}
 		case "tooLong":
@@ -531,12 +650,13 @@ func (w *World) Apply(e Event) {
 		case "ptsChanged":
 			push(&tg.Updates{Updates: []tg.UpdateClass{&tg.UpdatePtsChanged{}}, Date: w.Srv.date()})
 		case "chanTooLong":
-			c := w.Chans[e.I]
+			c, _ := w.chanAt(e.I)
 			u := &tg.UpdateChannelTooLong{ChannelID: c}
 			u.SetPts(w.Srv.End(ChanSeq(c)))
 			push(&tg.Updates{Updates: []tg.UpdateClass{u}, Date: w.Srv.date()})
 		case "chanTooLongNoPts":
-			push(&tg.Updates{Updates: []tg.UpdateClass{&tg.UpdateChannelTooLong{ChannelID: w.Chans[e.I]}}, Date: w.Srv.date()})
+			c, _ := w.chanAt(e.I)
+			push(&tg.Updates{Updates: []tg.UpdateClass{&tg.UpdateChannelTooLong{ChannelID: c}}, Date: w.Srv.date()})
 		default:
 			panic("unknown event " + e.Op)
 		}
@@ -556,14 +676,18 @@ func (w *World) Recover(common, channel string) bool {
 	w.Cfg.Lazy = false
 	defer func() { w.Cfg.Lazy = lazy }()
 	w.Apply(Event{Op: common})
-	for i := range w.Chans {
-		w.Apply(Event{Op: channel, I: i})
+	for i := range w.All {
+		if _, ok := w.chanAt(i); ok {
+			w.Apply(Event{Op: channel, I: i})
+		}
 	}
 	prev := w.Key()
 	for round := 0; round < 8; round++ {
 		w.Apply(Event{Op: "diff"})
-		for i := range w.Chans {
-			w.Apply(Event{Op: "cdiff", I: i})
+		for i := range w.All {
+			if _, ok := w.chanAt(i); ok {
+				w.Apply(Event{Op: "cdiff", I: i})
+			}
 		}
 		k := w.Key()
 		if k == prev {
@@ -593,11 +717,20 @@ func (w *World) Key() string {
 	box("qts", d.Qts)
 	box("seq", d.Seq)
 	for i, b := range d.Chans {
-		box(fmt.Sprintf("c%d", i), b)
+		box(fmt.Sprintf("c%d", d.ChanIDs[i]-ChanBase), b)
 	}
 	fmt.Fprintf(&sb, "date%d q%v i%v st%v/%d/%d/%d/%d", d.Date, d.ChanQueue, d.Internal, w.Store.Found, w.Store.State.Pts, w.Store.State.Qts, w.Store.State.Date, w.Store.State.Seq)
-	for _, c := range w.Chans {
-		fmt.Fprintf(&sb, "/%d", w.Store.Chans[c])
+	for _, c := range w.All {
+		if p, ok := w.Store.Chans[c]; ok {
+			fmt.Fprintf(&sb, "/%d", p)
+		} else {
+			sb.WriteString("/-")
+		}
+	}
+	for _, c := range w.All {
+		if p, ok := w.Contact[ChanSeq(c)]; ok {
+			fmt.Fprintf(&sb, " fc%d", p)
+		}
 	}
 	sb.WriteString(" n")
 	for _, n := range w.Count {
@@ -624,11 +757,22 @@ func (w *World) Key() string {
 func (w *World) Lost() []Entry {
 	var out []Entry
 	for i, e := range w.Srv.Log {
-		if w.Count[i]+w.Prior[i] == 0 && !w.TooLong[e.Seq] {
+		if w.Count[i]+w.Prior[i] == 0 && !w.TooLong[e.Seq] && w.Owed(e) {
 			out = append(out, e)
 		}
 	}
 	return out
+}
+
+// Owed reports whether the client owes the entry to the handler: always for the common
+// sequences and for channels tracked from the start; for an initially untracked channel only once
+// the client has seen a pushed update of it, and only entries after that first contact.
+func (w *World) Owed(e Entry) bool {
+	if e.Chan == 0 || !w.Cfg.IsUntracked(e.Chan) {
+		return true
+	}
+	fc, ok := w.Contact[e.Seq]
+	return ok && e.End > fc
 }
 
 // ServedClass says how a lost entry was available to the client.
